@@ -42,6 +42,8 @@ type Cmd struct {
 	// harness itself still has something outstanding for the child (e.g. a
 	// deliberate stall of the consumer), so idleness is expected.
 	Busy func() bool
+	// OnStart, if set, is called right after the child was started.
+	OnStart func(pid int)
 }
 
 // Result of a child run.
@@ -193,6 +195,9 @@ func RunCmd(c Cmd) *Result {
 		return res
 	}
 	res.Pid = cmd.Process.Pid
+	if c.OnStart != nil {
+		c.OnStart(res.Pid)
+	}
 	done := make(chan error, 1)
 	go func() { done <- cmd.Wait() }()
 
